@@ -31,6 +31,7 @@ hits original and copy alike is not blamed on pickling).
 """
 
 import collections
+import gc
 import io
 import pickle
 import sys
@@ -410,6 +411,9 @@ def load_and_continue(data, loader, flag_load, trace, deep):
         return {"load_exc": type(exc).__name__, "msg": str(exc)[:200]}
     finally:
         seams.set_flag(False)
+    # whatever the copy holds only weakly goes now, not at some later moment
+    # chosen by the allocator (a run must not depend on when that is)
+    gc.collect()
     w = canonical_world(root)
     snap = canon_snapshot(w)
     ex = PExec(w)
@@ -913,14 +917,10 @@ class C10(engine.Property):
         st.ex.__dict__.pop("shared_vals", None)
         st.ex.__dict__.pop("blobs", None)
         # the original, renumbered canonically from the root
+        # (only numbered here; what the objects say -- their uids too -- is
+        # recorded after the dump, so that nothing is read for the first time
+        # by this harness before the pickle is taken)
         wc = canonical_world(root)
-        canon0 = canon_snapshot(wc)
-        for d in canon0.values():
-            if d["k"] == "e" and None in d["ends"]:
-                s["probe:half-assigned-edge-pickled"] += 1
-                break
-        if any("slots" in d for d in canon0.values()):
-            s["probe:slotted-attributes-pickled"] += 1
         seams.set_flag(op["flag_dump"])
         try:
             if deep and "headroom" in op:
@@ -937,10 +937,17 @@ class C10(engine.Property):
         except Exception as exc:  # pylint: disable=broad-except
             kind = "C10/serialisation-raised:" + type(exc).__name__
             return {"exc": type(exc).__name__}, engine.viol(
-                kind, {"op": op, "objects": len(canon0), "msg": str(exc)[:200]}
+                kind, {"op": op, "objects": len(wc.objs), "msg": str(exc)[:200]}
             )
         finally:
             seams.set_flag(False)
+        canon0 = canon_snapshot(wc)
+        for d in canon0.values():
+            if d["k"] == "e" and None in d["ends"]:
+                s["probe:half-assigned-edge-pickled"] += 1
+                break
+        if any("slots" in d for d in canon0.values()):
+            s["probe:slotted-attributes-pickled"] += 1
         st.bytes = data
         st.pickle_op = op
         st.root = root
